@@ -7,14 +7,14 @@ BASE_NOTE = ("Trusted: Coq 8.16.1 kernel (+vm_compute for finite sweeps), ExtrOc
              "(differential, generated cases) and a regenerated constants file; ")
 CLAIMED = {
  "C01": dict(
-   text="Hand-written executable Gallina model of the whole optimisation pipeline (from_slice, all reductions incl. palette sorters, perform_reductions, evaluator, perform_trials, optimize_raw/png, output), replayed against the real code on every run under the recorded zlib oracle: byte-identical outputs, and no compressor call the model does not predict. Machine-checked theorems (Properties/C01.v): (1) per-pixel exactness of the sample mappings; (2) IMAGE LEVEL, every width/height/interlacing: 16->8, sub-byte expansion and reduction, RGB(A)->gray(A), alpha removal, ->indexed, indexed->channels, palette condensation, luma sort, palette reorders covering the used indices, Adam7 interlacing each keep a well-formed image at its meaning (Spec/Sem); (3) PIPELINE: perform_reductions keeps the baseline and every candidate, optimize_raw's choice, the filtered stream behind the emitted IDAT (all ten strategies) and finally the BYTES WRITTEN (decoded by the specification's whole-file decoder Spec/DecodeFile: strict container, IHDR, PLTE/tRNS, inflate, un-filtering, Adam7, colour) at the picture the input image means - for every option vector with the lossy switches off, every compressor, evaluator schedule and clock. Every image any reduction produces and every output file (also after 2-3 chained runs) is additionally decoded by the extracted specification and compared with the input at 16-bit RGBA.",
+   text="Hand-written executable Gallina model of the whole optimisation pipeline (from_slice, all reductions incl. palette sorters, perform_reductions, evaluator, perform_trials, optimize_raw/png, output), replayed against the real code on every run under the recorded zlib oracle: byte-identical outputs, and no compressor call the model does not predict. Machine-checked theorems (Properties/C01.v): (1) per-pixel exactness of the sample mappings; (2) IMAGE LEVEL, every width/height/interlacing: 16->8, sub-byte expansion and reduction, RGB(A)->gray(A), alpha removal, ->indexed, indexed->channels, palette condensation, luma sort, palette reorders covering the used indices, Adam7 interlacing AND de-interlacing (the pass/row state machine of src/interlace.rs, bits and bytes variants) each keep a well-formed image at its meaning (Spec/Sem); PngImage::new's image means what the specification decodes from the IDAT stream (C01_parsed_image_means); (3) PIPELINE: perform_reductions keeps the baseline and every candidate, optimize_raw's choice, the filtered stream behind the emitted IDAT (all ten strategies) and finally the BYTES WRITTEN (decoded by the specification's whole-file decoder Spec/DecodeFile: strict container, IHDR, PLTE/tRNS, inflate, un-filtering, Adam7, colour) at the picture the input image means - for every option vector with the lossy switches off, every compressor, evaluator schedule and clock. Every image any reduction produces and every output file (also after 2-3 chained runs) is additionally decoded by the extracted specification and compared with the input at 16-bit RGBA.",
    design="DESIGN.md §3 C01",
-   note=BASE_NOTE + "PARTIAL, named in the theorems: the record `leaves` (meaning-preservation of deinterlace_image and of the mzeng/battiato sorters' re-indexing) and, for the file-level theorem, the zlib hypothesis inflate(deflate x)=x plus container side conditions (chunk payloads < 2^31, no ancillary chunk named IEND/PLTE/tRNS/IDAT, encodable header fields); the parse of the INPUT file into the image is by correspondence. These are decided per run by correspondence + specification oracle. zlib is an oracle (re-validated with Python zlib).",
+   note=BASE_NOTE + "PARTIAL, named in the theorems: the record `leaves` (meaning-preservation of the mzeng/battiato sorters' re-indexing: their index list must contain every used index, a connectivity argument not yet formalised) and, for the file-level theorem, the zlib hypothesis inflate(deflate x)=x plus container side conditions (chunk payloads < 2^31, no ancillary chunk named IEND/PLTE/tRNS/IDAT, encodable header fields); the parse of the INPUT file into the image is by correspondence. These are decided per run by correspondence + specification oracle. zlib is an oracle (re-validated with Python zlib).",
    technique='Coq proof (image-level lifting theorems, finite byte tables by vm_compute over complete domains, pipeline invariant, filter/stream/file decode) + whole-pipeline model replay + extracted spec decoder as oracle'),
  "C03": dict(
-   text='Machine-checked (Properties/C03.v): alpha-equivalence is an equivalence on pixels and pictures; IMAGE LEVEL (every size, interlaced or not): blackening of transparent pixels, alpha channel -> colour key with an unused colour, palette condensation with merged transparent entries and indexed->channels with alpha optimisation map a well-formed image that means pic to one that means an alpha-equivalent picture; PIPELINE: with alpha optimisation on or off every candidate of perform_reductions and the image optimize_raw chooses are alpha-equivalent to the input. The model of optimize_alpha (all five filter branches, threaded line data) is tied to the code differentially; every filtered stream and every --alpha output file is decoded by the extracted specification and must be alpha-equivalent to the input.',
+   text='Machine-checked (Properties/C03.v): alpha-equivalence is an equivalence on pixels and pictures; IMAGE LEVEL (every size, interlaced or not): blackening of transparent pixels, alpha channel -> colour key with an unused colour, palette condensation with merged transparent entries and indexed->channels with alpha optimisation map a well-formed image that means pic to one that means an alpha-equivalent picture; PIPELINE: with alpha optimisation on or off every candidate of perform_reductions and the image optimize_raw chooses are alpha-equivalent to the input; FILTER STAGE (optimize_alpha inside filter_image, all five filter branches, line data threaded through the candidates of the heuristics): each rewritten scan line differs from the line only in the colour bytes of fully transparent pixels (C03_alpha_line), the stream filter_image writes with the optimisation on is decoded by the specification to an alpha-equivalent picture for all ten strategies and any Brute oracle (C03_filter_alpha_stream), and so is the stream compressed into the emitted IDAT (C03_emitted_stream_alpha_partial). The model is tied to the code differentially; every filtered stream and every --alpha output file is decoded by the extracted specification and must be alpha-equivalent to the input.',
    design="DESIGN.md §3 C03",
-   note=BASE_NOTE + 'PARTIAL: same `leaves` as C01; the filter-specific rewriting of transparent pixels inside filter_image (rows) and the container are by correspondence + oracle.',
+   note=BASE_NOTE + 'PARTIAL: same `leaves` as C01 (mzeng/battiato coverage); the container around the IDAT content is by correspondence + oracle.',
    technique='Coq proof (relational lifting of alpha-equivalence, alpha_scan invariant, palette normalisation) + differential correspondence + spec oracle (alpha-equivalence)'),
  "C14": dict(
    text="Machine-checked (Properties/C14.v): the COMPLETE decision table of preprocess_chunks (what happens to the iCCP chunk and which switches are turned off) as an equation, and its corollaries in the words of the property: "
@@ -129,10 +129,10 @@ CLAIMED = {
         "specification's Adam7 pass rows and byte lengths (empty passes omitted); raw_data_size equals the specification's total; the routing table of interlace_image is the "
         "specification's 8x8 matrix; the pixel routing of interlace_image equals the specification's pass images; the k-th pixel of a pass row is source pixel x0+k*dx; "
         "ROUND TRIP: the specification's de-interlacing of an interlaced image returns the image (spec_deinterlace (spec_interlace rows) = Some rows, every w, h) and each pixel is read back where it was; "
-        "WHOLE IMAGES, bytes in and bytes out: interlace_image (scan lines -> pixels -> pass rows -> packed, padded bytes) yields data that the specification's Adam7 layout reads back as the same picture. "
+        "WHOLE IMAGES, bytes in and bytes out, BOTH DIRECTIONS: interlace_image (scan lines -> pixels -> pass rows -> packed, padded bytes) yields data that the specification's Adam7 layout reads back as the same picture, and deinterlace_image - the pass/row state machine with increment_pass skipping empty passes and the per-line scatter, bits and bytes variants - computes the specification's de-interlacing (C18_deinterlace_is_spec, C18_increment_pass) and yields an image that means the same picture (C18_deinterlace_image_meaning). "
         "Tied to the code on every run over every geometry of the tier and decoded by the extracted specification in both directions and there-and-back.",
    design="DESIGN.md §3 C18",
-   note=BASE_NOTE + "interlace/deinterlace are modelled at pixel granularity (the Rust moves single bits/bytes with the same index arithmetic). The code's own de-interlacing state machine (deinterlace_image) is not yet proved equal to the specification's; that direction is tied by correspondence and the spec oracle on all geometries of the tier. "
+   note=BASE_NOTE + "interlace/deinterlace are modelled at pixel granularity (the Rust moves single bits/bytes with the same index arithmetic). "
         "u32 overflow of row+step for heights near 2^32 (needs > 8 GB of image data) is not modelled.",
    technique="Coq proof (induction over passes/rows, lia with div/mod, finite 8x8x7 table by vm_compute lifted through mod 8) + per-geometry correspondence"),
  "C19": dict(
@@ -142,7 +142,7 @@ CLAIMED = {
         "The model is tied to the code on every run: Paeth exhaustively (2^24), filter_line/unfilter_line/filter_image (10 strategies)/unfilter_image differentially, "
         "and everything oxipng writes is decoded by the extracted specification.",
    design="DESIGN.md §3 C19",
-   note=BASE_NOTE + "Brute strategy's per-row choice is a model oracle (instantiated with oxipng's own choices; the theorems hold for every oracle); libdeflate inside Brute is not modelled. The image-level theorems are for runs without alpha rewriting; with -a the rows are checked per run (spec decode, alpha-equivalence). unfilter_image of foreign files is proved per line, per image by run.",
+   note=BASE_NOTE + "Brute strategy's per-row choice is a model oracle (instantiated with oxipng's own choices; the theorems hold for every oracle); libdeflate inside Brute is not modelled. With -a the rows decode to the REWRITTEN lines (proved in C03_filter_alpha_stream: alpha-equivalent picture). unfilter_image of foreign files equals the specification's un-filtering of the whole stream (C19_unfilter_image_is_spec).",
    technique="Coq proof (induction over scan lines, mod-256 arithmetic by lia) + exhaustive/differential correspondence with extracted model"),
 }
 ALL = [f"C{i:02d}" for i in range(1, 20)]
